@@ -50,6 +50,11 @@ func ObserveEvent(ev cadence.Event) (Event, error) {
 		out.Names = append(out.Names, f.Name)
 		out.Types = append(out.Types, t.ID())
 		out.Values = append(out.Values, v.String())
+		dyn := "<nil type>"
+		if vt := v.Type(); vt != nil {
+			dyn = vt.ID()
+		}
+		out.Dyn = append(out.Dyn, dyn)
 	}
 	return out, nil
 }
